@@ -16,7 +16,7 @@ FIXED = [
  ("KF-C01-11", "C01", "4a621bd", "C01.same_outcome", "StopIteration thrown into an instrumented generator reaches the generator as RuntimeError (regression of 5958c50: PEP 479 applies to the helper the yields are delegated to)"),
  ("KF-C01-12", "C01", "b9cba87", "C01.same_envlog", "o[lo():hi()] = v evaluates the bounds of the slice twice, and before the value, once o is instrumented (0150888 left slices out)"),
  ("KF-C04-6", "C04", "3b96448", "demo:findings/review/R2/demo_5.py", "an override of a global that the function declares ('global G') but only reads is stored into the module and outlives the call and the probe (regression of 4d5f0fd)"),
- ("KF-C16-6", "C16", "c3d53db", "demo:findings/review/R4/demo_2.py", "a declared-only variable reached by a generator that is resumed after its probes ended fails with TypeError ('NoneType' is not subscriptable) instead of a name error"),
+ ("KF-C16-6", "C16", "c3d53db", "demo:findings/review/R4/demo_2b.py", "a declared-only variable reached by a generator that is resumed after its probes ended fails with TypeError ('NoneType' is not subscriptable) instead of a name error"),
  ("KF-C02-1", "C02", "f50c678", "C02.activation", "a variable assigned only inside an except block cannot be probed: 'Cannot find a variable named ...'"),
  ("KF-C02-2", "C02", "f35605b", "C02.stream", "'import os.path' binds os but a probe on os receives no event"),
  ("KF-C02-3", "C02", "bc90bec", "C02.stream", "a probe on the target of 'with cm() as w' receives no event (and the target is missing as context)"),
